@@ -125,6 +125,11 @@ func (p *bitPool) Get() uint8 {
 	return p.bits[curr]
 }
 
+// Exhausted returns whether all bits are in use, i.e. whether the next call of Get panics.
+func (p *bitPool) Exhausted() bool {
+	return p.available == 0 && p.length >= mask64TotalBits
+}
+
 // Allocates and returns a new bit. For internal use.
 func (p *bitPool) getNew() uint8 {
 	if p.length >= mask64TotalBits {
